@@ -31,6 +31,9 @@ enum Op {
     EqualAt(usize, bool),
     BottomMut,
     FromVec(usize),
+    /// raw element swap ("Swaps vector elements": indices count from the bottom); only applied in range,
+    /// the property's "never fail" clause is about positions of the documented top-based operations
+    Swap(usize, usize),
 }
 
 fn all_ops(maxpos: usize) -> Vec<Op> {
@@ -47,6 +50,8 @@ fn all_ops(maxpos: usize) -> Vec<Op> {
         v.push(Op::Shove(p));
         v.push(Op::EqualAt(p, true));
         v.push(Op::EqualAt(p, false));
+        v.push(Op::Swap(p, 0));
+        v.push(Op::Swap(1, p));
     }
     v.push(Op::PushVec(0));
     v.push(Op::PushVec(2));
@@ -286,6 +291,12 @@ impl<T: Elem> Hist<T> {
                 };
                 if a != b {
                     return Err(format!("bottom_mut gave {:?}, model {:?}", a, b));
+                }
+            }
+            Op::Swap(i, j) => {
+                if *i < len && *j < len {
+                    self.real.swap(*i, *j);
+                    self.model.swap(*i, *j);
                 }
             }
             Op::FromVec(n) => {
